@@ -143,7 +143,11 @@ Eval vm_compute in map (fun c => match c with (m, ps, out) =>
                 if not dollar_var:
                     bad_tie.append((ps, got, "model gave up, make did not"))
             elif [len(g.encode()) for g in got] != pred:
-                bad_tie.append((ps, got, pred))
+                # make lists a prerequisite that occurs twice only once ("Pruning file"): when a comment or an unescaped blank makes
+                # two written paths read as the same word, the model's word list has the duplicate and make's debug listing has not
+                gl = [len(g.encode()) for g in got]
+                if not (len(gl) < len(pred) and sorted(set(gl)) == sorted(set(pred))):
+                    bad_tie.append((ps, got, pred))
         ck.evaluations += 1
         if got is None or got != allp:
             bad = [p for p in allp if got is None or p not in got]
